@@ -98,7 +98,7 @@ Level(F, i, d) == IF d = 0 THEN {Root(i)} ELSE UNION {Children(F, e) : e \in Lev
 Cands(F, i, mid, d) == {e \in Level(F, i, d) : mid \in Declared(F, e.ty)}
 
 NoLookup(st, d) == [st |-> st, depth |-> d, ty |-> 0, ind |-> FALSE, path |-> <<>>, recv |-> "-"]
-Lookup(F, i, mid) ==
+LookupDef(F, i, mid) ==
   LET ds == {d \in 0..MaxDepth : Cands(F, i, mid, d) # {}} IN
   IF ds = {} THEN NoLookup("none", 0)
   ELSE LET d == MinOf(ds)
@@ -108,6 +108,13 @@ Lookup(F, i, mid) ==
             [st |-> "found", depth |-> d, ty |-> e.ty, ind |-> e.ind, path |-> e.path,
              recv |-> RecvOf(F, e.ty, mid)]
 
+(* Evaluation aid, not semantics: the operators below ask for the same       *)
+(* selector thousands of times per family.  A family may carry the table of  *)
+(* all its lookups (field lkc, built by Cached(F) below                     *)
+(* from LookupDef and nothing else); Lookup reads it when it is there.       *)
+(* SpecOK re-derives every entry from Cands on every family.                 *)
+Lookup(F, i, mid) == IF "lkc" \in DOMAIN F THEN F.lkc[i][mid] ELSE LookupDef(F, i, mid)
+
 -----------------------------------------------------------------------------
 (* Interfaces: "the type set / method set of an interface is the union of   *)
 (* its explicitly declared methods and those of its embedded interfaces".   *)
@@ -116,7 +123,14 @@ IMethods(F, q) ==
   LET I == F.ifaces[q] IN
   {MId(I.pkg, I.own[k]) : k \in DOMAIN I.own} \cup UNION {IMethods(F, I.emb[k]) : k \in DOMAIN I.emb}
 
-AllMIds(F) == UNION {Declared(F, i) : i \in 1..NT(F)} \cup UNION {IMethods(F, q) : q \in DOMAIN F.ifaces}
+AllMIdsDef(F) == UNION {Declared(F, i) : i \in 1..NT(F)} \cup UNION {IMethods(F, q) : q \in DOMAIN F.ifaces}
+AllMIds(F) == IF "mids" \in DOMAIN F THEN F.mids ELSE AllMIdsDef(F)
+
+\* the family with its lookup table attached (see Lookup)
+Cached(F) ==
+  [names |-> F.names, types |-> F.types, ifaces |-> F.ifaces,
+   mids  |-> AllMIdsDef(F),
+   lkc   |-> TLCEval([i \in 1..NT(F) |-> [mid \in AllMIdsDef(F) |-> LookupDef(F, i, mid)]])]
 
 (* Method sets.  A dynamic type is <<i, ptr>>: T_i or *T_i.  "The method    *)
 (* set of a defined type T consists of all methods declared with receiver   *)
@@ -347,6 +361,7 @@ SpecOK(F) ==
     /\ \A ptr \in BOOLEAN : MethodSet(F, i, ptr) = MethodSetRec(F, i, ptr)       \* the two formulations of the spec agree
     /\ \A mid \in AllMIds(F) :
          LET r == Lookup(F, i, mid) IN
+         /\ r = LookupDef(F, i, mid)                                              \* an attached table holds the definition's values
          /\ (r.st = "found" =>
                /\ \A d \in 0..(r.depth - 1) : Cands(F, i, mid, d) = {}           \* never a deeper method when a shallower one exists
                /\ Cands(F, i, mid, r.depth) = {[ty |-> r.ty, ind |-> r.ind, path |-> r.path]}
